@@ -225,6 +225,9 @@ class Typer:
             elif i == 0 and fn.cls is not None and not fn.is_static and fn.parent is None:
                 env[p.arg] = Ty("type", "type", (Ty("cls", fn.cls.qualname),)) if fn.is_classmethod else Ty("cls", fn.cls.qualname)
         # two passes so that later definitions can feed earlier uses in loops
+        # a declared local (`x: T` / `x: T = v`) has its declared type everywhere in the function, whatever is assigned to it
+        declared = {n.target.id: self.ann(mod, fn, n.annotation) for n in walk_no_nested(fn.node) if isinstance(n, ast.AnnAssign) and isinstance(n.target, ast.Name)}
+        declared = {k: v for k, v in declared.items() if v.kind != "any"}
         for _ in range(2):
             for n in walk_no_nested(fn.node):
                 if isinstance(n, ast.AnnAssign) and isinstance(n.target, ast.Name):
@@ -232,6 +235,9 @@ class Typer:
                 elif isinstance(n, ast.Assign):
                     ty = self.expr(fn, n.value, env)
                     for t in n.targets:
+                        if isinstance(t, ast.Name) and t.id in declared:
+                            env[t.id] = declared[t.id]
+                            continue
                         self._bind(t, ty, env)
                 elif isinstance(n, ast.NamedExpr) and isinstance(n.target, ast.Name):
                     self._bind(n.target, self.expr(fn, n.value, env), env)
@@ -313,6 +319,25 @@ class Typer:
         if isinstance(node, ast.Await):
             return self.expr(fn, node.value, env, _depth + 1)
         if isinstance(node, ast.IfExp):
+            # `a if isinstance(x, T) else b`: x is a T in the first arm and not a T in the second
+            t_ = node.test
+            neg = False
+            while isinstance(t_, ast.UnaryOp) and isinstance(t_.op, ast.Not):
+                t_, neg = t_.operand, not neg
+            if isinstance(t_, ast.Call) and dotted(t_.func) == "isinstance" and len(t_.args) == 2 and isinstance(t_.args[0], ast.Name) and t_.args[0].id in env:
+                nm, cur = t_.args[0].id, env[t_.args[0].id]
+                names = {dotted(x).rsplit(".", 1)[-1] for x in ([t_.args[1]] if not isinstance(t_.args[1], ast.Tuple) else t_.args[1].elts)}
+                alts = list(cur.args) if cur.kind == "union" else [cur]
+
+                def is_a(a: Ty) -> bool:
+                    return (a.kind == "builtin" and a.name in names) or (a.kind in ("tuple", "seq", "map", "set") and a.name in names) or (a.kind == "cls" and a.name.rsplit(".", 1)[-1] in names)
+
+                yes, no = [a for a in alts if is_a(a)], [a for a in alts if not is_a(a)]
+                if yes and no:
+                    e_yes, e_no = {**env, nm: union(yes)}, {**env, nm: union(no)}
+                    if neg:
+                        e_yes, e_no = e_no, e_yes
+                    return union([self.expr(fn, node.body, e_yes, _depth + 1), self.expr(fn, node.orelse, e_no, _depth + 1)])
             return union([self.expr(fn, node.body, env, _depth + 1), self.expr(fn, node.orelse, env, _depth + 1)])
         if isinstance(node, ast.BoolOp):
             return union([self.expr(fn, v, env, _depth + 1) for v in node.values])
